@@ -86,6 +86,10 @@ def _case(draw):
     special = draw(st.sampled_from([0, 0, 25, 90]))      # per mille of NaN / inf
     zero = draw(st.sampled_from([0, 60, 250]))           # per mille of zero errors
     pfail = draw(st.sampled_from([0, 0, 100, 500]))      # per mille of bins beyond the threshold
+    # integer-valued datasets (counts, tallies stored as int32 / int64; errors are floats)
+    vdtype = draw(st.sampled_from([None] * 5 + ['i4', 'i8'])) if not special else None
+    if vdtype:
+        return _int_case(draw, shape, kinds, size, nds, alpha, ndf, crit, zero, pfail, vdtype)
     refv = [statgen.value(draw, special) for _ in range(size)]
     refe = [statgen.error(draw, v, special, zero) for v in refv]
     others = []
@@ -124,6 +128,47 @@ def _case(draw):
     return {'shape': shape, 'kinds': kinds, 'ref': {'v': refv, 'e': refe}, 'others': others,
             'alpha': alpha, 'ndf': ndf, 'k': draw(st.integers(-KMAX, KMAX)), 'mono': mono,
             'layout': draw(st.sampled_from(dsutil.LAYOUTS))}
+
+
+def _int_case(draw, shape, kinds, size, nds, alpha, ndf, crit, zero, pfail, vdtype):
+    vmax = 10 ** 9 if vdtype == 'i4' else 10 ** 15
+
+    def ival():
+        expo = draw(st.integers(0, len(str(vmax)) - 1))
+        return float(draw(st.integers(-min(10 ** expo, vmax), min(10 ** expo, vmax))))
+
+    def err():
+        if draw(st.integers(0, 999)) < zero:
+            return 0.0
+        return draw(st.floats(0.0, 4.0).map(lambda x: 0.5 * 10.0 ** x))
+    refv = [ival() for _ in range(size)]
+    refe = [err() for _ in refv]
+    others = []
+    for _ in range(nds):
+        vals, errs = [], []
+        for v1, e1 in zip(refv, refe):
+            e2 = err()
+            q = math.hypot(e1, e2)
+            mode = draw(st.integers(0, 9))
+            if mode <= 6 and q > 0.0 and math.isfinite(crit):
+                roll = draw(st.integers(0, 999))
+                u = draw(st.floats(0.9, 1.1) if roll < 80 else st.floats(1.02, 3.0)
+                         if roll < 80 + max(pfail, 100) else st.floats(0.0, 0.98))
+                step = (-u if draw(st.booleans()) else u) * crit * q
+                v2 = v1 + float(round(max(-2.0 * vmax, min(2.0 * vmax, step))))
+            elif mode <= 8:
+                v2 = v1
+            else:
+                v2 = ival()
+            vals.append(max(-float(vmax), min(float(vmax), v2)))
+            errs.append(e2)
+        others.append({'v': vals, 'e': errs})
+    mono = {'ds': draw(st.integers(0, 2)), 'bin': draw(st.integers(0, 124)),
+            'what': draw(st.sampled_from(['value', 'value', 'error-ref', 'error-other'])),
+            'factor': draw(st.floats(-3.0, 3.0).map(lambda x: 10.0 ** x))}
+    return {'shape': shape, 'kinds': kinds, 'ref': {'v': refv, 'e': refe}, 'others': others,
+            'alpha': alpha, 'ndf': ndf, 'k': draw(st.integers(-KMAX, KMAX)), 'mono': mono,
+            'layout': draw(st.sampled_from(dsutil.LAYOUTS)), 'vdtype': vdtype}
 
 
 def strategy(tier):
@@ -226,11 +271,21 @@ def _run_case(case):
     refv, refe = case['ref']['v'], case['ref']['e']
     nds = len(case['others'])
 
+    vdt = case.get('vdtype')
+    vlim = 2.0 ** 31 - 1 if vdt == 'i4' else 2.0 ** 62
+
     def build(values, errors, name):
-        return statgen.make_dataset(shape, kinds, values, errors, name, case.get('layout', 'C'))
+        # the integer dtype wherever the numbers allow it (the metamorphic variants of a case
+        # scale or move the values: those that are no longer integers are stored as floats)
+        integral = vdt and all(math.isfinite(v) and float(v).is_integer() and abs(v) <= vlim
+                               for v in values)
+        return statgen.make_dataset(shape, kinds, [int(v) for v in values] if integral else values,
+                                    errors, name, case.get('layout', 'C'), vdt if integral else None)
 
     ref = build(refv, refe, 'ref')
     others = [build(o['v'], o['e'], f'o{i}') for i, o in enumerate(case['others'])]
+    if vdt:
+        out.labels.append('integer-values-' + vdt)
     out.labels += [kind, f'ndim={len(shape)}', 'ndf-none' if ndf is None else 'ndf-given',
                    'multi-dataset' if nds > 1 else 'single-dataset']
 
@@ -423,7 +478,7 @@ def _run_case(case):
     def overwrite(dst, src):
         for attr in ('value', 'error'):
             cur = getattr(dst, attr)
-            if isinstance(cur, np.ndarray) and cur.ndim:
+            if isinstance(cur, np.ndarray) and cur.ndim and cur.dtype == getattr(src, attr).dtype:
                 cur[...] = getattr(src, attr)
             else:
                 setattr(dst, attr, getattr(src, attr))
